@@ -442,6 +442,57 @@ def run2(buf):
 ''', [("run", [([1, 2, 3],), ([],)]), ("run2", [([5, 6, 7, 8],)])])
 
 
+# ---- polymorphic dispatch under an isinstance guard; static helper on a class
+case('''
+class Get:
+    def __init__(self, k):
+        self.k = k
+    def execute(self, store):
+        v = store[self.k]
+        if isinstance(v, list):
+            v = v[0]
+        return v
+
+class Put:
+    def __init__(self, k, v):
+        self.k, self.v = k, v
+    def execute(self, store):
+        store[self.k] = self.v
+        return None
+
+class Base:
+    def run(self, store):
+        return "base"
+
+class Derived(Base):
+    def run(self, store):
+        return "derived"
+
+class Ref:
+    def __init__(self, n):
+        self.n = n
+    @staticmethod
+    def wrap(v):
+        if isinstance(v, int):
+            return ("ref", v)
+        return v
+
+_KINDS = (Get, Put)
+
+def run(kind, k, v):
+    store = {"a": [1, 2], "b": 5}
+    cmd = Get(k) if kind == "get" else Put(k, v) if kind == "put" else Derived() if kind == "d" else Base() if kind == "b" else kind
+    if isinstance(cmd, _KINDS):
+        r = cmd.execute(store)
+    elif isinstance(cmd, Base):
+        r = cmd.run(store)
+    else:
+        r = str(cmd)
+    r = Ref.wrap(r)
+    return r, sorted(store.items())
+''', [("run", [("get", "a", 0), ("get", "b", 0), ("get", "zz", 0), ("put", "c", 9), ("d", 0, 0), ("b", 0, 0), ("other", 0, 0)])])
+
+
 def outcome(ns, fn, args):
     import copy
     try:
